@@ -10,3 +10,18 @@ KNOWN_ATOMS = {
     "_auto_ext_grid_types", "_check_branch", "_check_branches", "_check_junction_element",
     "_check_multiple_junction_elements", "_check_std_type", "_preserve_dtypes", "_set_entries", "_set_multiple_entries",
     "_from_list", "_from_path"}
+
+# Named constants of the package that rules name as anchors: uses of them stay names.  Every other module- or class-level
+# constant display (tuple / list / set / dict / string, assigned once and never mutated) is substituted at its uses.
+KNOWN_CONSTANTS = set()
+
+from .atoms_public import PUBLIC_DEFS  # noqa: E402
+
+
+def is_atom(name):
+    """does a call to a repository function / method of this name stay a call (True) or is it substituted (False)?"""
+    if name.startswith("__"):
+        return True
+    if name.startswith("_"):
+        return name in KNOWN_ATOMS
+    return name in PUBLIC_DEFS
